@@ -151,8 +151,10 @@ produceLoop:
 }
 
 func getOctoSQLValue(t octosql.Type, value *fastjson.Value) (out octosql.Value, ok bool) {
-	if value == nil {
-		return octosql.NewNull(), t.TypeID == octosql.TypeIDNull
+	if value == nil || value.Type() == fastjson.TypeNull {
+		// An absent key and a JSON null are both NULL; that fits whenever the type admits NULL
+		// (the NULL type itself or a union with a NULL alternative).
+		return octosql.NewNull(), octosql.Null.Is(t) == octosql.TypeRelationIs
 	}
 
 	switch t.TypeID {
